@@ -168,6 +168,9 @@ def _engine_defect_shapes(spec):
     _walk(spec['ast'], spec['shared'], look)
     for a in spec.get('extra_asts', []):
         _walk(a, spec['shared'], look)
+    for a in spec['shared']:
+        # also the shared sub-trees no formula refers to any more: they are evaluated side by side as formulas of their own
+        _walk(a, spec['shared'], look)
 
     def last_term(n):
         if n[0] == 'condsum':
@@ -238,7 +241,7 @@ def _judge_on_defect_shapes(spec, shapes, rec):
     from ..oracle import evalast
 
     bv = {k: v[0] for k, v in spec['betas'].items()}
-    for which, ast in enumerate([spec['ast']] + list(spec.get('extra_asts', []))):
+    for which, ast in enumerate([spec['ast']] + list(spec.get('extra_asts', [])) + list(spec['shared'][:2])):
         one = dict(spec, ast=ast, extra_asts=[])
         j = evalast.judge(ast, spec['data'], bv, spec['shared'])
         if not j['ok']:
